@@ -13,7 +13,7 @@ NOTES = ("Technique family: runtime monitoring. Every check observes executions 
 _PENDING = "check not built yet in this session (design in DESIGN.md section 6); not claimed until it exists and is silent on the unchanged tree"
 CHECKS = {
     "C05": dict(level="exploration", ref="DESIGN.md section 6 C05",
-                text="Every filtering call of an exhaustive small scope per constraint type (all boxes over a 3-5 value universe, parameter grids) plus seeded random boxes up to arity 6 in both execution modes is judged against an exhaustive hull oracle. Held means: no call among those executed lost a satisfying tuple, grew a domain or reported a false inconsistency. Exploration is the right level: the quantifier is over all boxes, which only sampling beyond the small scope can address at run time. Boxes beyond the enumeration limit (arity <= 12, width <= 9) are judged by sampled forms of the same oracle (every report is a concrete tuple).",
+                text="Every filtering call of an exhaustive small scope per constraint type (all boxes over a 3-5 value universe, parameter grids) plus seeded random boxes up to arity 6 in both execution modes is judged against an exhaustive hull oracle. Held means: no call among those executed lost a satisfying tuple, grew a domain or reported a false inconsistency. Exploration is the right level: the quantifier is over all boxes, which only sampling beyond the small scope can address at run time. Boxes beyond the enumeration limit (arity <= 12, width <= 9) are judged by sampled forms of the same oracle (every report is a concrete tuple). A stretched stream maps the small shapes onto domains up to ~10^9 wide (gaps around 2^8/2^16/2^24/2^28, values within +-2^30) and is judged exactly by a width-independent hull oracle (breakpoint probing / bisection).",
                 note="trusts O-sem (framework/oracles.py) as the reading of the documented relations and the parameter contract of DESIGN.md section 4; exhaustive only inside the listed scope",
                 technique="runtime oracle on real propagator calls (exhaustive small scope + random), hull by enumeration"),
     "C06": dict(level="exploration", ref="DESIGN.md section 6 C06",
@@ -21,7 +21,7 @@ CHECKS = {
                 note="trusts O-sem; point scope exhaustive only for the listed arities/universes",
                 technique="runtime oracle on real propagator calls over all ground tuples of a small scope + random collapse cases"),
     "C14": dict(level="exploration", ref="DESIGN.md section 6 C14",
-                text="For the BC-documented types the output box of each executed call is compared for equality with the exhaustively computed bounds hull, inconsistency must coincide with emptiness, and a second consecutive call must change nothing; affine_eq is compared with an independent exact one-round interval computation.",
+                text="For the BC-documented types the output box of each executed call is compared for equality with the exhaustively computed bounds hull, inconsistency must coincide with emptiness, and a second consecutive call must change nothing; affine_eq is compared with an independent exact one-round interval computation. Beyond the enumeration limit (arity <= 14, domains up to ~10^9 wide) the hull comes from an enumeration-free support oracle that is cross-checked against the enumerating one wherever both apply.",
                 note="trusts O-sem and the independent interval implementation; exhaustive only in the small scope",
                 technique="runtime differential of real propagator output vs enumerated bounds hull"),
 }
@@ -53,7 +53,7 @@ CHECKS.update({
                 note="schedule space sampled; O-fix only for small domains; order independence asserted only for exact-BC models",
                 technique="invariant-at-hook monitor on every pass + schedule injection at the queue pop + reference fixpoint"),
     "C09": dict(level="exploration", ref="DESIGN.md section 6 C09",
-                text="All five value heuristics are called directly on hand-built stacks for every [a,b] with a in [-5,5], width 1..8 at random levels (both modes) and their partition / untouched-state / announced-events postcondition checked, then backtrack() is driven and every restore compared bit for bit; the same assertions run around every decision and backtrack of real interpreted searches.",
+                text="All five value heuristics are called directly on hand-built stacks for every [a,b] with a in [-5,5], width 1..8 at random levels (both modes) and their partition / untouched-state / announced-events postcondition checked, then backtrack() is driven and every restore compared bit for bit; the same assertions run around every decision and backtrack of real interpreted searches. The unit harness also places the domains far from zero (bounds adding up beyond 32 bits, widths up to 70001).",
                 note="unit scope exhaustive for the listed shapes; in-search part sampled",
                 technique="pre/post-condition monitors on heuristic calls and backtracks (unit harness + in-search hooks)"),
     "C10": dict(level="exploration", ref="DESIGN.md section 6 C10",
@@ -70,7 +70,7 @@ for _k in list(CHECKS):
 
 CHECKS.update({
     "C11": dict(level="exploration", ref="DESIGN.md section 6 C11",
-                text="The real reducer is run against every interleaving of the real workers' message streams (complete enumeration whenever there are <= 5000, adversarial corners + 400 seeded ones otherwise), under two legal statistics payloads, and compared with the sequential solver: multiset, optimum, None iff infeasible, queue drained at return, aggregated statistics; real forked workers with injected delays confirm the shim.",
+                text="The real reducer is run against every interleaving of the real workers' message streams (complete enumeration whenever there are <= 5000, adversarial corners + 400 seeded ones otherwise), under two legal statistics payloads, and compared with the sequential solver: multiset, optimum, None iff infeasible, queue drained at return, aggregated statistics; real forked workers with injected delays confirm the shim. Histories of several calls on ONE solver object (enumerate twice, optimise then enumerate, an abandoned enumeration then a full one) must each answer like a first call, in the shim and with real processes.",
                 note="assumes per-producer FIFO of multiprocessing.Queue; OS schedules are sampled; exhaustive only per case, as reported in evidence",
                 technique="schedule shim enumerating message interleavings against the real reducer + delay injection on real processes"),
     "C12": dict(level="exploration", ref="DESIGN.md section 6 C12",
@@ -86,7 +86,7 @@ CHECKS.update({
                 note="complete for the small models used, not for all problems; crash points are made well defined by flushing the worker's feeder thread first",
                 technique="fault injection at enumerated crash points in real worker processes + structural deadlock oracle"),
     "C20": dict(level="exploration", ref="DESIGN.md section 6 C20",
-                text="Each of the 14 shipped model families is solved over a size sweep and several configurations in compiled mode; every solution goes through an independent definition-level validator, counts and optima are compared with literature values or own enumerations (Held-Karp, subset DP, ruler search, sum-free colourings, backtracking sudoku), and symmetry-breaking variants are related to the plain models. Completeness at definition level: symmetric images (relabelling, dihedral, row/column/box permutations) of delivered solutions that the validator accepts must be delivered by the model without symmetry breaking, and are accepted when presented ground.",
+                text="Each of the 14 shipped model families is solved over a size sweep and several configurations in compiled mode; every solution goes through an independent definition-level validator, counts and optima are compared with literature values or own enumerations (Held-Karp, subset DP, ruler search, sum-free colourings, backtracking sudoku), and symmetry-breaking variants are related to the plain models. Completeness at definition level: symmetric images (relabelling, dihedral, row/column/box permutations) of delivered solutions that the validator accepts must be delivered by the model without symmetry breaking, and are accepted when presented ground. The Golomb model's own consistency algorithm also runs under non-default search orders (decision domains = marks, reversed) x every heuristic pair.",
                 note="validators know each model's variable layout; literature constants listed in evidence assumptions",
                 technique="definition-level validators and independent reference solvers applied to every produced object"),
 })
@@ -95,7 +95,7 @@ for _k in list(CHECKS):
 
 CHECKS.update({
     "C19": dict(level="exploration", ref="DESIGN.md section 6 C19",
-                text="A sweep over 15 stack heights x search depths height-3..height+3 x 4 value heuristics x BC/shaving with red-zone canaries around every stack, and over problem sizes around the uint8/uint16 index types (arity, parameters, shared domains, propagator types); silent wrong answers, written guard rows, a stack pointer going backwards, a crash, or a refusal strictly inside the capacity are violations.",
+                text="A sweep over 15 stack heights x search depths height-3..height+3 x 4 value heuristics x BC/shaving with red-zone canaries around every stack, and over problem sizes around the uint8/uint16 index types (arity, parameters, shared domains, propagator types); silent wrong answers, written guard rows, a stack pointer going backwards, a crash, or a refusal strictly inside the capacity are violations. The same verdict applies to the multiprocessing solver when one worker's sub-problem needs more stack than configured: the call must raise or be right, never answer from the surviving workers alone.",
                 note="the statement does not say whether height h admits h or h-1 pushes: the two boundary depths are a tolerance band; canaries see writes into the 12 guard rows only",
                 technique="red-zone canaries on the engine's stacks + analytically known answers over a capacity sweep"),
 })
@@ -104,11 +104,11 @@ for _k in list(CHECKS):
 
 CHECKS.update({
     "C15": dict(level="exploration", ref="DESIGN.md section 6 C15",
-                text="Canonical traces (solution sequence + 13 statistics) of a deterministic case list are produced in five fresh processes per batch - compiled twice, interpreted, and both modes after a random history of earlier solver use (abandoned and suspended solvers, optimisations, registrations, reuse and split of the same problem object) - and must be identical case by case; the problem's observable fields must survive solver construction.",
+                text="Canonical traces (solution sequence + 13 statistics) of a deterministic case list are produced in five fresh processes per batch - compiled twice, interpreted, and both modes after a random history of earlier solver use (abandoned and suspended solvers, optimisations, registrations, reuse and split of the same problem object) - and must be identical case by case; the problem's observable fields must survive solver construction. The case list includes models whose values lie far from zero (10^6, 2^30, 1.5*10^9), where the two modes compute on different integer types.",
                 note="only differences visible in outputs or statistics are seen; each axis is a separate child process because the mode is read at import time",
                 technique="trace recorder at the API boundary + cross-process/mode/history trace comparison"),
     "C16": dict(level="exploration", ref="DESIGN.md section 6 C16",
-                text="In-contract workloads run under a source-level bounds sanitizer (import hook rewriting every non-literal subscript of nucs, 643 sites, flags out-of-range, computed negative and clamped-slice indices), under numba's bounds-check build with an unraisable-exception hook that halts on the first report, and with red-zone canaries around the stacks; the evidence lists reached / instrumented sites and the unreached ones. Large planted models (arity <= 14) run in the bounds-check build.",
+                text="In-contract workloads run under a source-level bounds sanitizer (import hook rewriting every non-literal subscript of nucs, 643 sites, flags out-of-range, computed negative and clamped-slice indices), under numba's bounds-check build with an unraisable-exception hook that halts on the first report, and with red-zone canaries around the stacks; the evidence lists reached / instrumented sites and the unreached ones. Large planted models (arity <= 14) run in the bounds-check build. A quarter of the direct calls use domains up to ~10^9 wide / value ranges far from zero (narrow scratch arrays, 16-bit offsets).",
                 note="a clean run is not memory safety: only reached sites with the index values that occurred; compiled-mode negative wrap-around is inferred from the interpreted sanitizer on the same source",
                 technique="bounds sanitizers: AST-instrumented interpretation + NUMBA_BOUNDSCHECK build + red-zone canaries"),
 })
